@@ -1,0 +1,57 @@
+//! Arena accounting facade (properties C07 / C02 / C15): the pre-WAL size bound of a batch, the
+//! size of an empty memtable, and what `MemTable::add` does with a batch on an EMPTY memtable of a
+//! given capacity. The tower heights are drawn at random inside `add`, so callers repeat. Plain
+//! data in and out.
+
+use crate::batch::Batch;
+use crate::memtable::MemTable;
+use crate::InternalKeyKind;
+
+/// One entry of a generated batch: (key length, value length); the bytes are filler.
+fn batch_of(entries: &[(usize, usize)]) -> Result<Batch, String> {
+	let mut b = Batch::new(1);
+	for (i, (klen, vlen)) in entries.iter().enumerate() {
+		let mut key = vec![b'k'; *klen];
+		// distinct keys: the index in the leading bytes
+		for (j, byte) in (i as u32).to_be_bytes().iter().enumerate() {
+			if j < key.len() {
+				key[j] = *byte;
+			}
+		}
+		b.add_record(InternalKeyKind::Set, key, Some(vec![b'v'; *vlen]), 0)
+			.map_err(|e| e.to_string())?;
+	}
+	Ok(b)
+}
+
+/// `MemTable::arena_upper_bound` of the generated batch.
+pub fn upper_bound(entries: &[(usize, usize)]) -> Result<usize, String> {
+	Ok(MemTable::arena_upper_bound(&batch_of(entries)?))
+}
+
+/// Arena bytes an empty memtable of this capacity has allocated (head and tail nodes).
+pub fn empty_size(capacity: usize) -> usize {
+	MemTable::new(capacity).size()
+}
+
+/// Applies the generated batch to a fresh memtable of `capacity`, `repeats` times (fresh memtable
+/// each time). Returns the arena sizes after the accepted applications and the number of
+/// applications refused with `ArenaFull` (any other error is reported).
+pub fn add_on_empty(
+	capacity: usize,
+	entries: &[(usize, usize)],
+	repeats: usize,
+) -> Result<(Vec<usize>, usize), String> {
+	let batch = batch_of(entries)?;
+	let mut sizes = Vec::new();
+	let mut full = 0;
+	for _ in 0..repeats {
+		let mem = MemTable::new(capacity);
+		match mem.add(&batch) {
+			Ok(()) => sizes.push(mem.size()),
+			Err(crate::error::Error::ArenaFull) => full += 1,
+			Err(e) => return Err(e.to_string()),
+		}
+	}
+	Ok((sizes, full))
+}
